@@ -18,7 +18,12 @@ is sampled.  For every distribution the clauses of the property are evaluated:
   transform-roundtrip   untransform(transform(cfg)) == cfg for every flag combination {0,1}^3
   box         every lattice point of `_SearchSpaceTransform.bounds` (corners, midpoints, +-1 ulp inside
               neighbours, thirds/quarters, half-step tie points and their ulp neighbours) untransforms
-              into the domain
+              into the domain.  NOT evaluated for log-scaled distributions (Float log, Int log,
+              LogUniformDistribution, IntLogUniformDistribution) when transform_log=False: the
+              docstring of _SearchSpaceTransform makes transform_log=True a precondition for sampling
+              from the transformed space, so those box points are outside the contract (skipped cases
+              are counted as `box_skipped_log_without_transform_log`; the round-trip clause, which
+              involves no sampling, is still evaluated for those flags)
 
 Mutations of optuna this check must catch.  M1-M4 and M6-M9 were applied one at a time to a scratch
 copy of optuna and the quick tier run against it: each produced NEW finding keys (listed), none of
@@ -76,12 +81,12 @@ Findings on the unmodified tree (genuine, kept reported; three families of keys)
     ...(high>15digits): FloatDistribution(9.999e-6, 9.999e6, step=1e-6) - the exact adjusted high
       has 16 significant digits, float(high) prints as another decimal, re-parsing the JSON adjusts
       it again and the round trip is not equal (thorough lattice only).
-  C ...|Int log|log=0 ...: with transform_log=False the log-int branch of untransform is a bare
-      int(x): the corner low-0.5 of the transform_step box maps to low-1
-      (IntDistribution(1, 1, log=True) -> 0), and with transform_0_1 the scaling error truncates
-      (IntDistribution(2, 70, log=True): 7 -> 6).  The docstring of _SearchSpaceTransform says
-      transform_log "should always be True" when sampling from the box; the round-trip failure does
-      not involve sampling.
+  C transform-roundtrip|Int log / IntLogUniformDistribution|log=0 step=* 01=1|value-changed: with
+      transform_log=False the log-int branch of untransform is a bare int(x), and with transform_0_1
+      the scaling error truncates (IntDistribution(2, 70, log=True): 7 -> 6).  (The same int(x) maps the
+      corner low-0.5 of the transform_step box to low-1, IntDistribution(1, 1, log=True) -> 0, but that
+      is sampling from the box without transform_log and therefore outside the contract: not
+      evaluated, see `box` above.)
 """
 from __future__ import annotations
 
@@ -600,7 +605,10 @@ def check_numeric(D, T, c: NumCase, part: Part) -> None:
         # flags that cannot matter for this class are shown as * in the finding key (the replay has them)
         fl = f"log={tl if c.log else '*'} step={ts if c.stepf is not None else '*'} 01={z}"
         flags = {"transform_log": tl, "transform_step": ts, "transform_0_1": z}
-        part.add("evaluations", 2)
+        # sampling from the box of a log-scaled distribution requires transform_log=True (docstring
+        # of _SearchSpaceTransform): the box clause is not evaluated otherwise
+        skip_box = bool(c.log and not tl)
+        part.add("evaluations", 1 if skip_box else 2)
         # raw bounds come from the same transform without 0_1 (public attribute `bounds`)
         if (tl, ts) not in raws:
             t0 = T({"x": d}, transform_log=bool(tl), transform_step=bool(ts), transform_0_1=False)
@@ -695,6 +703,9 @@ def check_numeric(D, T, c: NumCase, part: Part) -> None:
                 viol("transform-roundtrip", fl, "value-changed-beyond-tolerance", value=repr(v), observed=repr(u),
                      ulps_of_scale=err)
         # box points
+        if skip_box:
+            part.add("box_skipped_log_without_transform_log")
+            continue
         m = len(pts)
         if m != n:
             space = {"c": cat}
@@ -978,6 +989,7 @@ def run(tier: str, replay: str | None = None) -> int:
         "stepped floats: exact transform round trip demanded for low, high and the values clip(k*step+low) the library produces; decimal-typed float(low+k*step) values must come back within 4 ulp of max(|low|,|high|) and stay contained",
         "continuous floats: untransform clips to nextafter(high,-inf) on purpose, v == high coming back 1 ulp lower is accepted; with transform_0_1 the scaling arithmetic is allowed 2 ulp of max(|low|,|high|)",
         "log floats with transform_log: exp(log(v)) is good to about |ln v| ulps, so 'a few ulps' is max(4, 2+ceil|ln v|) (16 at 1e+-6; measured max 9); with transform_0_1 additionally 2*ceil(max|ln bound|) ulps for the scaling in log space (measured max 25); box points of log floats may leave [low, high] by the same max(4, 2+ceil|ln bound|) ulps (measured max 8)",
+        "box clause is not evaluated for log-scaled distributions (Float log, Int log, LogUniformDistribution, IntLogUniformDistribution) with transform_log=False: the _SearchSpaceTransform docstring makes transform_log=True a precondition for sampling from the transformed space (skipped cases counted in box_skipped_log_without_transform_log); the transform round trip is still demanded for those flags",
         "the abbreviated JSON form has no serialiser in optuna; it is written by the check from the attributes",
         "finding keys of stepped floats carry (scale/step>=1e7) when max(|low|,|high|)/step >= 1e7 and (high>15digits) when the exact adjusted high needs more than 15 significant digits; flags that cannot matter for a class are printed as * in keys",
         "multi-parameter configurations: every value / box point of one distribution is carried by one configuration of a search space {categorical, d, d, ..., d}; spaces mixing different numeric distributions are not enumerated",
